@@ -51,13 +51,17 @@ theorem op_success_table :
     Gen.opSuccess.length = 256 ∧ (List.range 256).all (fun i => Gen.opSuccess.getD i false == Spec.isOpSuccess i) = true := by
   decide +kernel
 
-/-- `GetOpCode` maps every opcode name, with and without the OP_ prefix, to its opcode -/
+/-- `ParseOpCode` accepts every opcode name, with and without the OP_ prefix, and yields its opcode; the one enumerator
+    that is no opcode (OP_INVALIDOPCODE, the "none" value of `GetOpCode`) is refused under both spellings, and the table
+    has no other rows -/
 theorem get_opcode_names :
     ((Op.table ++ Op.aliases).filter (fun p => p.1 != "OP_INVALIDOPCODE")).all (fun p =>
-      Gen.opCodeByName.lookup p.1 == some p.2 && Gen.opCodeByName.lookup (String.ofList (p.1.toList.drop 3)) == some p.2) = true := by
+      Gen.opCodeByName.lookup p.1 == some p.2 && Gen.opCodeByName.lookup (String.ofList (p.1.toList.drop 3)) == some p.2) = true ∧
+    Gen.opCodeByName.lookup "OP_INVALIDOPCODE" = none ∧ Gen.opCodeByName.lookup "INVALIDOPCODE" = none ∧
+    Gen.opCodeByName.length = 2 * ((Op.table ++ Op.aliases).filter (fun p => p.1 != "OP_INVALIDOPCODE")).length := by
   decide +kernel
 
-/-- `GetOpCode("OP_xNN")` = `GetOpCode("xNN")` = NN for all 256 values -/
+/-- `ParseOpCode("OP_xNN")` and `ParseOpCode("xNN")` succeed with NN for all 256 values, ff included -/
 theorem get_opcode_x :
     Gen.opCodeX.length = 256 ∧ (List.range 256).all (fun i => Gen.opCodeX.getD i (0, 0) == (i, i)) = true := by decide +kernel
 
